@@ -54,7 +54,8 @@ ASSUMPTIONS = [
     "and compared in the histories where the caller catches exceptions, but only ids/parents are proved to survive (c15_caught_*)",
     "c15_partial is stated for every optimise_segment_groups meeting OptSpec (segments, group positions/ids, include sets and every resolved set kept: C14's statement); c15_optimise_meets_spec proves it for the model's own function (shipped and C14-repaired loop), the real function is tied to that by correspondence",
     "theorem hypotheses: the parent passed is a segment of the cell, use_convention=True (property's quantifier); "
-    "OneTypePerGroup and UserGroupNamesFresh exclude the two open findings",
+    "OneTypePerGroup excludes the open finding group-reused-across-types; UserGroupNamesFresh is a hypothesis only for the tree "
+    "WITHOUT fixes/C15-default-group-name.patch (on the repaired tree the refusal provides it: c15_names_fixed_full, c15_repaired_full)",
     "segment ids are integers as stored (int(seg_id)); fractions multiples of 1/4; point coordinates are not modelled (parameter geom of cellObj)",
     "c15_validate_accepts leaves the facet checks of the concrete strings (facetsOK st) and the generated code's max_occurs=9999999 (small) as decidable side conditions",
 ]
@@ -613,27 +614,92 @@ def suffix(track):
 SUFFIXED = ("C15:finish-raises:", "C15:all-mismatch:", "C15:default-group-mismatch:", "C15:include-before-definition:")
 
 
-def oracle(ctx, case, steps, final, track, model=None, agrees=True):
-    """the property's clauses on the real cell, classified.  A failure is filed under the key of an OPEN finding
-    (suffix default-named-user-group / group-reused-across-types) only if the MODEL — which is the code as it is,
-    bug for bug — predicts the failure of that very clause on this very history (`clauseFails` of the driver) AND the
-    real cell agreed with the model at every step of this history (`agrees`); a clause the model says holds, or any
-    failure in a history where the real cell deviates from the model, is filed as `other`, whatever else the history
-    contains (a real regression must not be suppressed as KNOWN-FINDING)."""
+def group_types_of(case):
+    """group id -> set of segment types it is used with in conventional add calls (read off the calls)"""
+    gt = {}
+    for op in case["ops"]:
+        if op["op"] in ("addSegment", "addUnbranched") and op.get("group_id") and op.get("use_convention") and op.get("seg_type"):
+            gt.setdefault(op["group_id"], set()).add(op["seg_type"])
+    return gt
+
+
+def without_pattern(case, reuse=False, named=False):
+    """the same history with a known pattern taken out: `reuse` — a user group used with several segment types gets one
+    name per type; `named` — a user group named like a default group gets a fresh name"""
+    # a default-named group used with several types belongs to the `named` pattern only (one of the uses is foreign)
+    multi = set(g for g, ts in group_types_of(case).items() if len(ts) > 1 and g not in DEFAULTS)
+    ops = []
+    for op in case["ops"]:
+        op = dict(op)
+        if op["op"] in ("addSegment", "addUnbranched") and op.get("group_id"):
+            g = op["group_id"]
+            if named and g in DEFAULTS:
+                # one fresh group per (name, type): taking the pattern out must not create a group reused across types
+                g = "ug_%s_%s" % (g, op.get("seg_type") if op.get("use_convention") else "nc")
+            if reuse and op["group_id"] in multi and op.get("use_convention") and op.get("seg_type"):
+                g = "%s_%s" % (g, op["seg_type"])
+            op["group_id"] = g
+        ops.append(op)
+    return {"ops": ops, "caught": case.get("caught")}
+
+
+def model_clause_fails(cases, variant):
+    """`clauseFails` of the MODEL (driver only, the real library is not run) on each history"""
+    lines = [json.dumps({"optFixed": variant["optFixed"], "idFixed": variant["idFixed"], "namesFixed": variant["namesFixed"],
+                         "old": False, "caught": bool(c.get("caught")), "ops": wire_ops(c["ops"])}) for c in cases]
+    rc, out = fw.run_driver("C15", lines)
+    if rc != 0 or len(out) != len(lines):
+        return None
+    res = []
+    for l in out:
+        d = json.loads(l)
+        # a counterfactual history that ends with a raise is inconclusive: count every clause as failing (no attribution)
+        res.append(set(d.get("clauseFails") or []) if "finish" in d else set(SUFFIXED))
+    return res
+
+
+def oracle(ctx, case, steps, final, track, model=None, agrees=True, variant=None):
+    """the property's clauses on the real cell, classified.  A failure of a group clause is filed under the key of a
+    KNOWN pattern only if (1) the real cell agreed with the model — the code as it is, bug for bug — at every step of
+    this history (`agrees`), (2) the model predicts the failure of that very clause on this very history
+    (`clauseFails` of the driver), and (3) the model says the pattern is the REASON: the same clause holds in the
+    model when exactly that pattern is taken out of the history (group used with one type only / user group not named
+    like a default group) and still fails when only the OTHER pattern is taken out.  A failure that needs both
+    patterns gets a combined key; everything else is `other`.  So a regression, or a residue of a repaired finding, is
+    never suppressed under the key of a different open finding that merely also occurs in the history."""
     fails = clauses(ctx, case, steps, final, track)
-    suf = suffix(track)
-    if suf == "other" or not any(k.startswith(SUFFIXED) for k, _ in fails):
+    if not any(k.startswith(SUFFIXED) for k, _ in fails):
         return fails
     predicted = set((model or {}).get("clauseFails") or [])
+    cf = None
+    if agrees and variant is not None and (predicted & set(k.rsplit(":", 1)[0] + ":" for k, _ in fails)):
+        cf = model_clause_fails([without_pattern(case, reuse=True), without_pattern(case, named=True),
+                                 without_pattern(case, reuse=True, named=True)], variant)
+        ctx.count("oracle:model-counterfactuals")
     out = []
     for k, what in fails:
-        if k.startswith(SUFFIXED):
-            prefix = k.rsplit(":", 1)[0] + ":"
-            if prefix not in predicted or not agrees:
+        if not k.startswith(SUFFIXED):
+            out.append((k, what))
+            continue
+        prefix = k.rsplit(":", 1)[0] + ":"
+        if not agrees or prefix not in predicted or cf is None:
+            if suffix(track) != "other":
                 ctx.count("oracle:known-pattern-present-but-not-the-cause")
-                out.append((prefix + "other", what + "  [the history contains the known pattern '%s', but the model of the unchanged code does not predict this failure]" % suf))
-                continue
-        out.append((k, what))
+            out.append((prefix + "other", what + ("" if suffix(track) == "other" else
+                        "  [the history contains a known pattern, but the model of the code as it is does not predict this failure]")))
+            continue
+        no_reuse, no_named, no_both = cf
+        reuse_explains = prefix not in no_reuse
+        named_explains = prefix not in no_named
+        if reuse_explains and not named_explains:
+            suf = "group-reused-across-types"
+        elif named_explains and not reuse_explains:
+            suf = "default-named-user-group"
+        elif (reuse_explains and named_explains) or prefix not in no_both:
+            suf = "group-reused-across-types+default-named-user-group"
+        else:
+            suf = "other"
+        out.append((prefix + suf, what))
     return out
 
 
@@ -820,7 +886,8 @@ def run_cases(ctx, cases, variant, old=False):
                 elif "finish" in m:
                     ctx.disagree("builder-finish", {"ops": case["ops"]}, None, m.get("finish"))
         # --- oracle on the real cell
-        for key, what in oracle(ctx, case, steps, final, track, m, agrees=(m is not None and len(ctx.corr_disagreements) == n_dis)):
+        for key, what in oracle(ctx, case, steps, final, track, m, agrees=(m is not None and len(ctx.corr_disagreements) == n_dis),
+                                variant=variant):
             ctx.fail(key, what, {"ops": case["ops"], "caught": bool(case.get("caught"))})
         ctx.sample({"ops": [(o["op"], {k: v for k, v in o.items() if k != "op"}) for o in case["ops"][:4]],
                     "n_ops": len(case["ops"]), "ended": "finished" if final is not None else steps[-1]["err"]})
@@ -913,6 +980,13 @@ CORPUS = [
                      _seg(parent=1, seg_type="dendrite", group_id="dend_1", prox=False)]},
     {"ops": [_seg(group_id="sec2"), _seg(parent=0, group_id="sec10"), _seg(parent=0, group_id="sec02", optimise=False),
              _seg(parent=0, group_id="Sec2", reorder=False), {"op": "optimise"}]},
+    # follow-up: the open group-reuse finding in a history that ALSO uses the default group of a segment's own type as
+    # group_id (allowed, and proved harmless: c15_names_fixed_full): the failure must be keyed group-reused-across-types
+    {"ops": BASIC + [_seg(group_id="g2"), _seg(parent=0, group_id="axon_group", seg_type="axon", optimise=False),
+                     _seg(parent=0, group_id="g2", seg_type="axon", reorder=False)]},
+    # the default group of the segment's own type as group_id, twice, with deferred optimise: a good cell
+    {"ops": BASIC + [_seg(group_id="soma_group", optimise=False), _seg(parent=0, group_id="soma_group", frac4=1),
+                     _seg(parent=1, group_id="dendrite_group", seg_type="dendrite", reorder=False)]},
     # bad quantity accepted at build time (validate=False), refused by validate and the schema
     {"ops": [BASIC[0], BASIC[1], {"op": "addMembrane", "kind": "SpecificCapacitance", "value": "kilo", "group": "all", "via": "set"}, _seg()]},
 ]
